@@ -244,7 +244,11 @@ func cmdPublishSame(args []string) {
 		done := make(chan error, 1)
 		go func() { done <- j.Subscribe(ctx, sse.Subscription{Client: rec, Topics: []string{sse.DefaultTopic}}) }()
 		m := &sse.Message{}
-		m.AppendData("hello")
+		if n%2 == 0 {
+			m.AppendData("hello")
+		} else {
+			m.AppendComment("a publication is a publication, whatever it carries: keep-alive") // comment-only
+		}
 		before := m.String()
 		// wait until the subscriber is registered: publish probes until one arrives
 		deadline := time.Now().Add(5 * time.Second)
